@@ -78,6 +78,14 @@ where
                                 .any(|left| fn_next_borrow_muts.iter().any(|right| left == right));
 
                         if conflict {
+                            #[cfg(feature = "verif_hooks")]
+                            crate::verif_hooks::emit(|| {
+                                format!(
+                                    r#"{{"ev":"aug_edge","a":{},"b":{}}}"#,
+                                    fn_id.index() + 1,
+                                    fn_id_next.index() + 1
+                                )
+                            });
                             graph
                                 .update_edge(fn_id, fn_id_next, Edge::Data)
                                 .expect("Failed to add data edge between functions.");
